@@ -9,7 +9,7 @@ model's.  Thorough: valgrind memcheck checks definedness of every buffer reachin
 import json, subprocess, os, vlib, gen, hist
 from props import histprop
 PID = "C17"
-MIX = [("geom", {}), ("names", {}), ("file", {}), ("dirc", {}), ("full", {}), ("extbound", {}), ("rdb", {}), ("geom", {}), ("bigrm", {}), ("openchain", {})]
+MIX = [("geom", {}), ("names", {}), ("file", {}), ("dirc", {}), ("full", {}), ("extbound", {}), ("rdb", {}), ("geom", {}), ("bigrm", {}), ("openchain", {}), ("dircspill", {})]
 
 def run(res):
     res.cov["rule"] = ("format of floppies / hardfiles (incl. >25 bitmap pages) / partitioned disks, and namespace / file / dircache / exhaustion histories, each executed by two "
